@@ -91,6 +91,39 @@ def quatOf (M : M9) (l : Rat) : Quat :=
     q2 := k.k01 * k1233_1323 - k11 * k0233_0323 + k.k13 * k0213_0312,
     q3 := -k.k01 * k1223_1322 + k11 * k0223_0322 - k.k12 * k0213_0312 }
 
+/-- `K − λI` as a 4×4 array -/
+def shifted (M : M9) (l : Rat) (i j : Nat) : Rat :=
+  let k := keyK M
+  match i, j with
+  | 0, 0 => k.k00 - l | 0, 1 => k.k01 | 0, 2 => k.k02 | 0, 3 => k.k03
+  | 1, 0 => k.k01 | 1, 1 => k.k11 - l | 1, 2 => k.k12 | 1, 3 => k.k13
+  | 2, 0 => k.k02 | 2, 1 => k.k12 | 2, 2 => k.k22 - l | 2, 3 => k.k23
+  | 3, 0 => k.k03 | 3, 1 => k.k13 | 3, 2 => k.k23 | 3, 3 => k.k33 - l
+  | _, _ => 0
+
+/-- `cofactor4`: the (i, j) cofactor, rows/columns other than i/j in increasing order -/
+def cofactor4 (A : Nat → Nat → Rat) (i j : Nat) : Rat :=
+  let r := (List.range 4).filter (· != i)
+  let c := (List.range 4).filter (· != j)
+  let r0 := r.getD 0 0; let r1 := r.getD 1 0; let r2 := r.getD 2 0
+  let c0 := c.getD 0 0; let c1 := c.getD 1 0; let c2 := c.getD 2 0
+  let d := A r0 c0 * (A r1 c1 * A r2 c2 - A r1 c2 * A r2 c1)
+         - A r0 c1 * (A r1 c0 * A r2 c2 - A r1 c2 * A r2 c0)
+         + A r0 c2 * (A r1 c0 * A r2 c1 - A r1 c1 * A r2 c0)
+  if (i + j) % 2 == 0 then d else -d
+
+/-- column `col` of the adjugate of `K − λI` (the loop over `row` in the code) -/
+def adjCol (M : M9) (l : Rat) (col : Nat) : Quat :=
+  let A := shifted M l
+  ⟨cofactor4 A col 0, cofactor4 A col 1, cofactor4 A col 2, cofactor4 A col 3⟩
+
+/-- the quaternion the code uses: the first column by the explicit formulas, replaced by a later column of strictly larger norm -/
+def bestCol (M : M9) (l : Rat) : Quat :=
+  [1, 2, 3].foldl (fun q col => let c := adjCol M l col; if c.norm2 > q.norm2 then c else q) (quatOf M l)
+
+/-- convergence test of the code: the rotation is the identity unless |q|² > 1e-11 λ⁶ -/
+def converged (M : M9) (l : Rat) : Bool := (bestCol M l).norm2 > (1 / 100000000000 : Rat) * (l * l * l) * (l * l * l)
+
 /-- the rotation matrix entries `rot[0..8]` from a quaternion (before the division by |q|²) -/
 def rotOf (q : Quat) : M9 :=
   let a2 := q.q0 * q.q0; let x2 := q.q1 * q.q1; let y2 := q.q2 * q.q2; let z2 := q.q3 * q.q3
